@@ -27,7 +27,8 @@ import numpy as np
 import warnings
 
 from holopy.scattering.scatterer import Sphere, Spheroid, Cylinder
-from holopy.scattering.errors import TheoryNotCompatibleError, TmatrixFailure
+from holopy.scattering.errors import (TheoryNotCompatibleError, TmatrixFailure,
+                                      InvalidScatterer)
 from holopy.core.errors import DependencyMissing
 from holopy.scattering.theory.scatteringtheory import ScatteringTheory
 try:
@@ -117,6 +118,11 @@ class Tmatrix(ScatteringTheory):
         mrr = scatterer.n.real/medium_index
         mri = scatterer.n.imag/medium_index
         eps = rxy/rz
+        # a vanishing (or underflowing) equal-volume radius or aspect ratio
+        # makes the Fortran code index outside its arrays and ends the process
+        if not (axi > 0 and eps > 0 and np.isfinite(axi) and np.isfinite(eps)):
+            raise InvalidScatterer(
+                scatterer, "T-matrix calculations need positive, finite sizes")
         NP = -1 - int(iscyl)
         ndgs = 5
         alpha = scatterer.rotation[2] * 180 / np.pi
